@@ -12,7 +12,7 @@ CONSTANTS
   MCMax <- Max2
   Ticks <- TicksQ
   StartArgs <- StartOne
-  AdvArgs <- AdvQ
+  AdvArgs <- AdvOne
   SetArgs <- SetTwo
   Msgs <- NoMsgs
   MCFreq = 1
